@@ -13,7 +13,8 @@ import ast
 
 from .. import markexplore as mx
 from .. import markprops  # noqa: F401
-from ..rules_tables import reflect_map_involution, marker_token_agreement
+from ..rules_tables import reflect_map_involution
+from ..absint import PyRaise
 
 
 def run(chk):
@@ -38,7 +39,20 @@ def run(chk):
     chk.evaluations += good
     chk.nontrivial.update(("R07", i) for i in range(u["nontriv"]))
     reflect_map_involution(chk, "R07.2")
-    marker_token_agreement(chk, "R07.8")
+    # R07.8 by interpretation (robust to helper extraction): the special texts parse to the special markers and render back
+    for text, want in (("<empty>", dom.Empty), ("", dom.Any), ("*", dom.Any)):
+        chk.instance("R07.8")
+        try:
+            m = dom.parse(text)
+        except PyRaise as e:
+            chk.fail("R07.8", f"dep_logic.markers:parse_marker:{text!r}", f"parse_marker({text!r}) raises {e.exc!r}")
+            continue
+        if m.cls is not want:
+            chk.fail("R07.8", f"dep_logic.markers:parse_marker:{text!r}", f"parse_marker({text!r}) is {dom.show(m)}, expected {want.name}")
+        elif text != "*" and dom.to_text(m) != text:
+            chk.fail("R07.8", f"{m.cls.module.name}:{m.cls.name}.__str__", f"{want.name} renders as {dom.to_text(m)!r}, not {text!r}")
+        else:
+            chk.ok("R07.8", key=text)
     chk.analysed = {"markers": len(keys), "distinct_level1_results": ndistinct, "obligations": u["n"], "skipped_budget": u["skipped"]}
     chk.exhaustive = False
     chk.trusted += ["own PEP 508 marker grammar (vsa/markdomain.py) stands in for packaging's parser", "PEP 440 model (vsa/pkgmodel.py)"]
